@@ -374,6 +374,27 @@ func (c *Ctx) RangeGuard(rule string, id string, wantGuard bool) []report.Obliga
 			}
 		}
 	}
+	// maps.Copy(dst, src) is the unconditional keyed update of every entry of src
+	for _, cs := range callSites(f, func(com *ssa.CallCommon) bool {
+		cal := com.StaticCallee()
+		if cal == nil {
+			return false
+		}
+		o := cal.Origin()
+		return o != nil && o.Pkg != nil && o.Pkg.Pkg.Name() == "maps" && o.Name() == "Copy" && !c.P.IsModulePkg(o.Pkg.Pkg)
+	}) {
+		n++
+		key := id + " :: m[k] = v"
+		if len(f.Params) == 0 || cs.Common().Args[0] != ssa.Value(f.Params[0]) {
+			out = append(out, bad(rule, key, c.P.InstrPos(cs), "maps.Copy does not copy into the receiver: the direction of the override is reversed"))
+			continue
+		}
+		if wantGuard {
+			out = append(out, bad(rule, key, c.P.InstrPos(cs), "maps.Copy writes every entry unconditionally: an existing (higher-precedence) value is overwritten"))
+		} else {
+			out = append(out, ok2(rule, key, c.P.InstrPos(cs), "maps.Copy writes every entry unconditionally: the argument's entries win"))
+		}
+	}
 	if n == 0 {
 		out = append(out, bad(rule, id+" :: keyed update present", c.P.Pos(f.Pos()), "no update keyed by the iteration key found"))
 	}
